@@ -39,12 +39,55 @@ type c01Backend interface {
 
 // ---- in-memory
 
-type c01MemBackend struct{ *doubles.MemBackend }
+type c01MemBackend struct {
+	*doubles.MemBackend
+	lockIgnoresCtx *bool
+}
 
-func (b c01MemBackend) Handle(inst string) certmagic.Storage { return b.MemBackend.Handle(inst) }
-func (b c01MemBackend) LockID(name string) string            { return name }
-func (b c01MemBackend) GetLog() *doubles.Log                 { return b.MemBackend.Log }
-func (b c01MemBackend) Close()                               {}
+// Handle: with lockIgnoresCtx the Locker grants an uncontended lock whatever the state of the caller's
+// context (as FileStorage.Lock does: it consults the context only while it waits for a held lock).
+func (b c01MemBackend) Handle(inst string) certmagic.Storage {
+	return &c01MemHandle{MemStorage: b.MemBackend.Handle(inst), b: b}
+}
+
+type c01MemHandle struct {
+	*doubles.MemStorage
+	b c01MemBackend
+}
+
+func (h *c01MemHandle) Lock(ctx context.Context, name string) error {
+	if h.b.lockIgnoresCtx == nil || !*h.b.lockIgnoresCtx {
+		return h.MemStorage.Lock(ctx, name)
+	}
+	// like FileStorage.Lock: the context matters only while the lock is held by somebody else
+	ctx2, cancel2 := context.WithCancel(context.WithoutCancel(ctx))
+	defer cancel2()
+	done := make(chan struct{})
+	defer close(done)
+	go func() {
+		select {
+		case <-ctx.Done():
+		case <-done:
+			return
+		}
+		for {
+			if o := h.b.MemBackend.LockOwner(name); o != "" && o != h.MemStorage.Inst {
+				cancel2()
+				return
+			}
+			select {
+			case <-done:
+				return
+			case <-time.After(time.Millisecond):
+			}
+		}
+	}()
+	return h.MemStorage.Lock(ctx2, name)
+}
+
+func (b c01MemBackend) LockID(name string) string { return name }
+func (b c01MemBackend) GetLog() *doubles.Log      { return b.MemBackend.Log }
+func (b c01MemBackend) Close()                    {}
 
 // ---- FileStorage
 
@@ -54,6 +97,9 @@ type c01FileBackend struct {
 	log   *doubles.Log
 	mu    sync.Mutex
 	owner map[string]string // lock file -> instance
+	// the gate does not fail a Lock call for a cancelled context (FileStorage.Lock itself looks at the
+	// context only while it waits for a held lock)
+	lockIgnoresCtx bool
 	// the lock file a dead holder left behind (leaveLockFile): not a lock anybody holds as long as it is untouched
 	deadName    string
 	deadContent []byte
@@ -161,7 +207,7 @@ func (h *c01FileHandle) begin(ctx context.Context, kind, key string) (int, error
 		ce = err.Error()
 	}
 	seq, err := h.b.log.Begin(doubles.Op{Inst: h.inst, Kind: kind, Key: key, CtxErr: ce})
-	if err == nil && kind != "Unlock" {
+	if err == nil && kind != "Unlock" && !(kind == "Lock" && h.b.lockIgnoresCtx) {
 		if cerr := ctx.Err(); cerr != nil {
 			h.b.log.SetErr(seq, cerr)
 			return seq, cerr
